@@ -45,6 +45,8 @@ def may_raise(st, K, pre, selfv, d, w):
         or (e[0] == "in-loop" and len(e) > 1 and e[1] == "child-fill-raised")
         for e in evs
     )
+    if K == "Bag":
+        ok = any(e[0] == "userfn" for e in evs)  # Bag accepts strings ("S") or numbers ("N") only
     if K == "Categorize":
         ok = any(
             (e[0] == "userfn" and e[1] in ("raise", "other", "num")) or e[0] == "child-fill-raised" for e in evs
@@ -87,6 +89,25 @@ def fill_post(st, K, pre, selfv, a, r, d, w):
             body += [v1.isfin(), v1.r + (E + wr) * m1.r * m1.r == S2_0 + wr * q.r * q.r]
             gs.append(z3.Implies(z3.Or(q.nan, z3.And(z3.Not(empty), m0.nan)), v1.nan))
         gs.append(z3.Implies(fin_case, z3.And(body)))
+    elif K == "Bag":
+        m = a["values"]
+        rng = a["range"].t
+        key = z3.If(
+            rng == core.strlit("S"),
+            core.KStr(uf_s(e, d)),
+            z3.If(q.nan, core.KStr(core.strlit("nan")), z3.If(q.pinf, core.Key.KPInf, z3.If(q.ninf, core.Key.KNInf, core.Key.KReal(q.r)))),
+        )
+        want = CFam(
+            m.ksort,
+            lambda k: z3.Or(m.dom(k), k == key),
+            lambda k: CFl(Fl.ite(k == key, Fl.ite(m.dom(k), m.val(k).fl.add(w), w), m.val(k).fl)),
+            None,
+            m.pytype,
+        )
+        # range "S" takes strings, range "N" numbers/bools; a numeric *string* under "N" is parsed by
+        # float() -- outside the specification, not constrained here
+        proper = z3.If(rng == core.strlit("S"), kind == UF_STR, isnum)
+        gs.append(z3.Implies(proper, content_eq(st, r["values"], want, "fill.values")))
     elif K == "Minimize":
         gs.append(r["min"].fl.same(specs.minplus_spec(a["min"].fl, q)))
     elif K == "Maximize":
